@@ -4,6 +4,7 @@ import (
 	"fmt"
 	"testing/synctest"
 
+	jsonds "github.com/cube2222/octosql/datasources/json"
 	"github.com/cube2222/octosql/execution"
 )
 
@@ -22,8 +23,24 @@ type GatedOutcome struct {
 // Afterwards all remaining gates are aborted so that the bubble can end.
 func RunGated(r *Run, node execution.Node, ctl *Ctl, produce execution.ProduceFn, metaSend execution.MetaSendFn,
 	choose func(enabled []string) int, stepCap int) GatedOutcome {
+	return RunGatedPool(r, node, 0, ctl, produce, metaSend, choose, stepCap)
+}
+
+// RunGatedPool is RunGated with a JSON parser worker pool of the given size
+// (0 = none) that lives exactly as long as the bubble: created before the
+// query starts, stopped after every goroutine the query left behind has been
+// released and has come to rest.
+func RunGatedPool(r *Run, node execution.Node, jsonWorkers int, ctl *Ctl, produce execution.ProduceFn, metaSend execution.MetaSendFn,
+	choose func(enabled []string) int, stepCap int) GatedOutcome {
 	var out GatedOutcome
 	p := bubbleRecover(r, func() {
+		if jsonWorkers > 0 {
+			jsonds.SimStartParserPool(jsonWorkers)
+			defer func() {
+				jsonds.SimStopParserPool()
+				synctest.Wait()
+			}()
+		}
 		done := make(chan struct{})
 		go func() {
 			defer close(done)
